@@ -33,6 +33,7 @@ func runC16(c *Ctx) {
 	ruleFillValue(c)
 	R.Rule("R-recipients-as-accepted", "E1/E2", "the client records a recipient exactly when the server accepted its RCPT: Close waits for one LMTP reply per recorded recipient and returns their verdicts", 2)
 	ruleRcptsRecorded(c)
+	rulePositiveAfterCallback(c) // every recipient the client was told "250" for was handed to the backend
 	R.Rule("R-client-parse", "E4 + who-may-call", "the verdict Close returns is the server's reply converted by readResponse/toSMTPErr: code, enhanced code and the text with the per-line code repetitions removed", 4)
 	ruleClientParse(c)
 	ruleEnhDefault(c) // every line of the verdict carries the same (possibly defaulted) enhanced code
